@@ -150,6 +150,12 @@ func Replay(c *core.Ctx, lines []string) {
 			doRemove(c, f[1] == "1", names, f[3] == "1", n)
 		case f[0] == "C06.cli" && len(f) >= 8:
 			replayCLI(c, f)
+		case f[0] == "C06.tipfile" && len(f) >= 3:
+			content, err := core.Unescape(f[1])
+			if err != nil {
+				panic(err)
+			}
+			doTipFile(c, content, decodeList(f[2]))
 		}
 	}
 }
@@ -316,13 +322,48 @@ func addChain(g *core.G, n *core.N) string {
 	return leaf.Name
 }
 
+func renameTip(n *core.N, from, to string) {
+	if len(n.Kids) == 0 && n.Name == from {
+		n.Name = to
+	}
+	for _, k := range n.Kids {
+		renameTip(k, from, to)
+	}
+}
+
 func genTree(c *core.Ctx) (*core.N, string) {
 	g := c.G
 	o := opts(g)
 	if !c.Quick() && g.Chance(0.08) {
 		o.MaxTips = 45 // larger trees in the thorough tier
 	}
+	lookAlike := g.Chance(0.06)
+	if lookAlike {
+		o.FunnyNames = true // blanks, quotes, numeric-looking and non-ASCII tip names
+	}
 	n, _ := g.Tree(o)
+	if lookAlike && g.Chance(0.5) {
+		// a tip whose name reads like two other tips listed one after the other
+		// (preferably the two tips of a cherry, so that a side and a tip name render alike)
+		if tn := n.TipNames(); len(tn) >= 4 {
+			a, b := tn[0], tn[1]
+			for _, x := range innerNodes(n) {
+				if len(x.Kids) == 2 && len(x.Kids[0].Kids) == 0 && len(x.Kids[1].Kids) == 0 {
+					a, b = x.Kids[0].Name, x.Kids[1].Name
+					break
+				}
+			}
+			if b < a {
+				a, b = b, a
+			}
+			for _, c := range tn {
+				if c != a && c != b {
+					renameTip(n, c, a+", "+b)
+					break
+				}
+			}
+		}
+	}
 	chain := ""
 	if g.Chance(0.05) {
 		chain = addChain(g, n)
@@ -416,6 +457,9 @@ func Run(c *core.Ctx) {
 	if c.Gotree != "" {
 		for i := 0; i < c.Scale(40, 800); i++ {
 			cliCase(c)
+		}
+		for i := 0; i < c.Scale(25, 400); i++ {
+			tipFileCase(c)
 		}
 	}
 }
